@@ -128,7 +128,7 @@ func genGotoPrograms(tier string) string {
 	}
 	count := 200
 	if tier == "thorough" {
-		count = 1500
+		count = 600
 	}
 	for k := 0; k < count; k++ {
 		n := 3 + rnd(6)
